@@ -317,7 +317,7 @@ def run(ctx):
             else:
                 r.bad(name, "%s does not deliver after-context, before-context and the match in that order" % name, fn=f)
 
-    with ctx.rule("C03.STOPNM", "--stop-on-nonmatch: once a line matched, the first non-matching line ends the search on every path",
+    with ctx.rule("C03.STOPNM", "--stop-on-nonmatch: once a line matched, the first non-matching line ends the search on every path of the line strategies (the multi-line strategy does not implement the option; the CLI excludes the combination)",
                   floor=6, kind="GUARD/A3") as r:
         def force_both(f, eb):
             """edges to delete so that (stop_on_nonmatch ∧ has_matched) is forced true"""
